@@ -36,7 +36,11 @@ import (
 const leaseKey = "/tables/t/lease"
 
 type Case struct {
-	Kind   string `json:"kind"`
+	Kind string `json:"kind"`
+	// Mode: "" = the victim is cut off from the metadata store for the window; "restart" = the
+	// victim's worker is closed (which returns the lease) at the start of the window and a new worker
+	// is started on the same engine at its end
+	Mode   string `json:"mode,omitempty"`
 	Seed   int64  `json:"seed"`
 	Victim int    `json:"victim"` // node cut off (0 or 1)
 	Start  int    `json:"start"`  // half intervals before the cut
@@ -47,6 +51,9 @@ type Case struct {
 func (c Case) String() string {
 	if c.Len == 0 {
 		return fmt.Sprintf("seed %d, no cut, %d half-intervals", c.Seed, c.Start+c.After)
+	}
+	if c.Mode == "restart" {
+		return fmt.Sprintf("seed %d: %d half-intervals, then node %d's worker is closed, restarted %d half-intervals later, then %d more", c.Seed, c.Start, c.Victim+1, c.Len, c.After)
 	}
 	return fmt.Sprintf("seed %d: %d half-intervals, then node %d cut off from the metadata store for %d half-intervals, then %d more", c.Seed, c.Start, c.Victim+1, c.Len, c.After)
 }
@@ -151,6 +158,8 @@ func runCase(t *testing.T, c Case) (viols [][2]string, outcome string, polls int
 		q := storage.NewNotificationQueue()
 		go q.Run()
 		var workers []*replication.VerifWorker
+		var engines []*storage.Engine
+		var stores []*partStore
 		var started sync.WaitGroup
 		for n := 0; n < 2; n++ {
 			n := n
@@ -160,6 +169,8 @@ func runCase(t *testing.T, c Case) (viols [][2]string, outcome string, polls int
 			rand.Seed(c.Seed + int64(n)*7919) // worker.Start sleeps rand.Intn(pollInterval) first
 			w := replication.VerifNewStartableWorker(eng, "t", ps, q, time.Second, time.Second)
 			workers = append(workers, w)
+			engines = append(engines, eng)
+			stores = append(stores, ps)
 			started.Add(1)
 			go func() {
 				defer started.Done()
@@ -177,7 +188,7 @@ func runCase(t *testing.T, c Case) (viols [][2]string, outcome string, polls int
 			h, until, ok := truth()
 			now := time.Now()
 			for n, w := range workers {
-				if !w.Leased() {
+				if w == nil || !w.Leased() {
 					continue
 				}
 				polls++
@@ -196,7 +207,25 @@ func runCase(t *testing.T, c Case) (viols [][2]string, outcome string, polls int
 		for i := 0; i < c.Start; i++ {
 			step()
 		}
-		if c.Len > 0 {
+		if c.Len > 0 && c.Mode == "restart" {
+			old := workers[c.Victim]
+			old.Close() // returns the lease, as the replication manager does when it stops a worker
+			synctest.Wait()
+			mu.Lock()
+			workers[c.Victim] = nil
+			mu.Unlock()
+			for i := 0; i < c.Len; i++ {
+				step()
+			}
+			rand.Seed(c.Seed + 31)
+			nw := replication.VerifNewStartableWorker(engines[c.Victim], "t", stores[c.Victim], q, time.Second, time.Second)
+			nw.Start() // returns after its start-up jitter
+			mu.Lock()
+			workers[c.Victim] = nw
+			mu.Unlock()
+			synctest.Wait()
+			observe()
+		} else if c.Len > 0 {
 			mu.Lock()
 			cuts[c.Victim] = true
 			mu.Unlock()
@@ -221,7 +250,9 @@ func runCase(t *testing.T, c Case) (viols [][2]string, outcome string, polls int
 		mu.Unlock()
 		outcome = sb.String()
 		for _, w := range workers {
-			w.Close()
+			if w != nil {
+				w.Close()
+			}
 		}
 		_ = q.Close()
 		synctest.Wait()
@@ -248,7 +279,7 @@ func TestWorkerLeases(t *testing.T) {
 		maxStart, maxLen, maxAfter = 8, 20, 8
 		seeds = []int64{1, 2, 3, 4, 5, 6}
 	}
-	res := Result{Rule: fmt.Sprintf("worker part: two real replication workers (real worker.Start: lease, statistics and replication routines on their own tickers, lease interval 1s, lease 4s) over real Manager.LeaseTable/ReturnTable and real kv.LFSM replicas in synctest bubbles; one node is cut off from the metadata store (proposals time out, reads stale) for a window: EVERY (start 0..%d, length 0..%d, tail 0..%d) on a half-interval grid x either node x %d start-up phases; after every half interval a worker whose lease flag is set (it polls the leader exactly then) must be named by the committed lease record, which must not have expired", maxStart, maxLen, maxAfter, len(seeds))}
+	res := Result{Rule: fmt.Sprintf("worker part: two real replication workers (real worker.Start: lease, statistics and replication routines on their own tickers, lease interval 1s, lease 4s) over real Manager.LeaseTable/ReturnTable and real kv.LFSM replicas in synctest bubbles; one node is cut off from the metadata store (proposals time out, reads stale) for a window: EVERY (start 0..%d, length 0..%d, tail 0..%d) on a half-interval grid x either node x %d start-up phases; and the same grid (length 1..6) with the node's worker closed (which returns the lease) at the start of the window and a new worker started on the same engine at its end; after every half interval a worker whose lease flag is set (it polls the leader exactly then) must be named by the committed lease record, which must not have expired", maxStart, maxLen, maxAfter, len(seeds))}
 	outcomes := map[string]bool{}
 	var cases []Case
 	for _, seed := range seeds {
@@ -260,6 +291,9 @@ func TestWorkerLeases(t *testing.T) {
 							continue
 						}
 						cases = append(cases, Case{Kind: "worker-lease", Seed: seed, Victim: victim, Start: start, Len: l, After: after})
+						if l > 0 && l <= 6 && after > 0 {
+							cases = append(cases, Case{Kind: "worker-lease", Mode: "restart", Seed: seed, Victim: victim, Start: start, Len: l, After: after})
+						}
 					}
 				}
 			}
